@@ -217,6 +217,82 @@ func (c *Ctx) mapxRun() *simpleVerdict {
 		}(w)
 	}
 	wg.Wait()
+	// long histories: one map, no Clear, hundreds of registrations that each carry a reference of their own (the
+	// statement bounds neither the number of registrations nor the number of distinct references): 300 on Latin
+	// ranges, 600 on Latin ranges, ranges above U+00FF and ranges spanning U+0100; every probe is looked up after
+	// every 50th registration and at the end and compared with the latest covering registration
+	longRanges := [][2]int64{{'a', 'z'}, {0xE0, 0xFF}, {'m', 'm'}, {0x00, 0x7F}, {0xFF, 0xFF}, {0x30, 0xC0},
+		{0xFF, 0x100}, {0x41, 0x141}, {0x100, 0x17F}, {0xC0, 0x2000}, {0x101, 0x101}, {0x00, 0xFFFE}, {0x2000, 0xFFFE}}
+	longV := &simpleVerdict{}
+	parts = append(parts, longV)
+	for _, lh := range []struct {
+		n, ranges int
+	}{{300, 6}, {600, len(longRanges)}} {
+		m := newMach(c)
+		obj, out := m.Call(ctor)
+		if out.kind != "ok" {
+			longV.undec = "NewCharReferenceMap: " + out.why
+			break
+		}
+		var seq []mapOp
+		describe := func() string {
+			var rs []string
+			for _, r := range longRanges[:lh.ranges] {
+				rs = append(rs, fmt.Sprintf("%#x-%#x", r[0], r[1]))
+			}
+			return fmt.Sprintf("%d registrations of distinct references R0, R1, ... on one new map (registration k: AddInterval with Rk over range number (k+5*(k/%d)) mod %d of [%s]), the last being %s", len(seq), lh.ranges, lh.ranges, strings.Join(rs, " "), seq[len(seq)-1])
+		}
+		for k := 0; k < lh.n && longV.bad == "" && longV.undec == ""; k++ {
+			// the ranges are visited in an order that changes from round to round
+			r := longRanges[(k+k/lh.ranges*5)%lh.ranges]
+			o := mapOp{"add", r[0], r[1], fmt.Sprintf("R%d", k)}
+			seq = append(seq, o)
+			m.steps = 0
+			_, out := m.Call(c.lookupMethod(mt, "AddInterval"), obj, o.start, o.end, mIface{t: types.Typ[types.String], v: o.ref})
+			if out.kind == "panic" {
+				longV.bad = "after " + describe() + ": the registration panics: " + out.why
+				break
+			}
+			if out.kind != "ok" {
+				longV.undec = "after " + describe() + ": " + out.why
+				break
+			}
+			if (k+1)%50 != 0 && k+1 != lh.n {
+				continue
+			}
+			longV.runs++
+			for _, p := range probes {
+				m.steps = 0
+				r, out := m.Call(c.lookupMethod(mt, "Lookup"), obj, p)
+				if out.kind == "panic" {
+					longV.bad = fmt.Sprintf("after %s, Lookup(%#x) panics: %s", describe(), p, out.why)
+					break
+				}
+				if out.kind != "ok" {
+					longV.undec = fmt.Sprintf("after %s, Lookup(%#x): %s", describe(), p, out.why)
+					break
+				}
+				got := ""
+				switch t := r.(type) {
+				case mIface:
+					got, _ = t.v.(string)
+				case mNilT:
+				default:
+					got = mRender(r)
+				}
+				if want := mapModelLookup(seq, p); got != want {
+					show := func(s string) string {
+						if s == "" {
+							return "nothing"
+						}
+						return s
+					}
+					longV.bad = fmt.Sprintf("after %s, Lookup(%#x) returns %s; the latest registration covering it gives %s", describe(), p, show(got), show(want))
+					break
+				}
+			}
+		}
+	}
 	total := &simpleVerdict{}
 	for _, p := range parts {
 		total.runs += p.runs
@@ -399,6 +475,92 @@ func (c *Ctx) symxRun() *simpleVerdict {
 		specials = append(specials,
 			special{[]symReg{{"=", t}, {"=≤", t}}, []string{"=", "=a", "=≤", "=≤a", "=="}, nil},
 			special{[]symReg{{"=", t}}, []string{"=", "=a", "=≤"}, []symReg{{"=≤", 103}}},
+		)
+	}
+	// inputs derived from a set: every symbol and every proper prefix of it, alone, followed by a letter, by the
+	// symbol's own first and last character and by a blank
+	inputsOf := func(regs ...[]symReg) []string {
+		var ins []string
+		seen := map[string]bool{}
+		put := func(s string) {
+			if s != "" && !seen[s] {
+				seen[s] = true
+				ins = append(ins, s)
+			}
+		}
+		for _, rs := range regs {
+			for _, r := range rs {
+				cs := []rune(r.text)
+				for n := len(cs); n >= 1; n-- {
+					p := string(cs[:n])
+					put(p)
+					put(p + "a")
+					put(p + string(cs[:1]))
+					put(p + string(cs[len(cs)-1:]))
+					put(p + " ")
+				}
+			}
+		}
+		return ins
+	}
+	// symbols are made of any characters: the characters at the ends of the ranges a character table may treat apart
+	// (U+0001, the ends of ASCII and Latin-1, the first character above U+00FF, the last configurable character) as
+	// the only, the first, an inner and the last character of registered symbols; the one-character symbol registered
+	// or not, before or after the longer ones, and longer symbols registered after the table was used. (U+0000 is
+	// left out: a registered symbol that contains it is returned without it - reported, not part of the family.)
+	for k, b := range []string{"\x01", "\x7f", "\u0080", "\u00fe", "\u00ff", "\u0100", "\u0101", "\ufffe"} {
+		t := int64(160 + 4*k)
+		one := []symReg{{b, t}}
+		first := []symReg{{b + ">", t + 1}, {b + ">=", t + 2}}
+		inner := []symReg{{"<" + b + "=", t + 3}, {"<", t}}
+		last := []symReg{{"<" + b, t + 1}, {"<", t + 2}, {"<" + b + "=", t + 3}}
+		twice := []symReg{{b + b, t + 1}, {b + b + b, t + 2}}
+		all := append(append(append(append([]symReg{}, one...), first...), last...), twice...)
+		var rev []symReg
+		for i := len(all) - 1; i >= 0; i-- {
+			rev = append(rev, all[i])
+		}
+		specials = append(specials,
+			special{one, inputsOf(one, first), nil},
+			special{first, inputsOf(one, first), nil},
+			special{inner, inputsOf(inner), nil},
+			special{last, inputsOf(last), nil},
+			special{twice, inputsOf(twice), one},
+			special{all, inputsOf(all), nil},
+			special{rev, inputsOf(all), nil},
+			special{one, inputsOf(all), append(append([]symReg{}, first...), last[:1]...)},
+			special{last[:2], inputsOf(all), append(append([]symReg{}, last[2:]...), one...)},
+		)
+	}
+	// white space is as good a symbol character as any: symbols that start with, contain and end with a blank, a
+	// tab or a line break, alone and next to the same symbols without those characters registered with another
+	// type, in both orders and after the table was used
+	for k, p := range [][2]string{{"-", " "}, {",", " "}, {"->", " "}, {"=", "\t"}, {"<>", "\n"}, {":=", " "}} {
+		t := int64(200 + 8*k)
+		core, sp := p[0], p[1]
+		plain := []symReg{{core, t}}
+		lead := []symReg{{sp + core, t + 1}}
+		trail := []symReg{{core + sp, t + 2}}
+		both := []symReg{{sp + core + sp, t + 3}}
+		mid := []symReg{{core + sp + core, t + 4}, {core + sp + ">", t + 5}}
+		dbl := []symReg{{core + sp + sp, t + 6}, {sp + sp + core, t + 7}}
+		join := func(a ...[]symReg) []symReg {
+			var s []symReg
+			for _, x := range a {
+				s = append(s, x...)
+			}
+			return s
+		}
+		all := join(plain, lead, trail, both, mid, dbl)
+		ins := inputsOf(all)
+		specials = append(specials,
+			special{lead, ins, nil}, special{trail, ins, nil}, special{both, ins, nil}, special{mid, ins, nil}, special{dbl, ins, nil},
+			special{join(plain, lead), ins, nil}, special{join(lead, plain), ins, nil},
+			special{join(plain, trail), ins, nil}, special{join(trail, plain), ins, nil},
+			special{join(plain, both), ins, nil}, special{join(both, plain), ins, nil},
+			special{plain, ins, both}, special{both, ins, plain},
+			special{plain, ins, join(trail, lead)}, special{join(trail, lead), ins, plain},
+			special{all, ins, nil}, special{join(dbl, mid, both, trail, lead, plain), ins, nil},
 		)
 	}
 	ctor := c.MustFunc("tokenizers/generic", "", "NewGenericSymbolState")
@@ -661,12 +823,12 @@ func emitSimple(c *Ctx, rule, key, pos string, v *simpleVerdict, okText string) 
 
 func init() {
 	register(&Rule{ID: "MAP.model", Floor: 1,
-		Doc: "CharReferenceMap evaluated abstractly (NewCharReferenceMap, AddInterval, AddDefaultInterval, Clear, Lookup) over every sequence of up to two registrations/clears (a sample of the sequences of three in the quick tier, all in the thorough tier) with endpoints from {0,'a',0xFF,0x100,0x101,0x2000,0xFFFE} and references {A,B,none}, probed at every endpoint and its neighbours and at characters beyond U+FFFE whose low 16 bits equal an endpoint: Lookup returns the reference of the latest registration covering the character",
+		Doc: "CharReferenceMap evaluated abstractly (NewCharReferenceMap, AddInterval, AddDefaultInterval, Clear, Lookup) over every sequence of up to two registrations/clears (a sample of the sequences of three in the quick tier, all in the thorough tier) with endpoints from {0,'a',0xFF,0x100,0x101,0x2000,0xFFFE} and references {A,B,none}, probed at every endpoint and its neighbours and at characters beyond U+FFFE whose low 16 bits equal an endpoint; long histories of 300 and 600 registrations of pairwise distinct references on Latin ranges, ranges above U+00FF and ranges spanning U+0100 without a Clear, probed after every 50th registration: Lookup returns the reference of the latest registration covering the character",
 		Run: func(c *Ctx) []*Obligation {
 			return emitSimple(c, "MAP.model", "utilities.CharReferenceMap#latest-covering-registration", c.Pos(c.MustFunc("tokenizers/utilities", "", "NewCharReferenceMap").Pos()), c.mapxRun(), "lookups agree with the list model")
 		}})
 	register(&Rule{ID: "SYM.model", Floor: 1,
-		Doc: "GenericSymbolState evaluated abstractly (Add, NextToken over a StringScanner) for symbol sets over {<,=,>} of lengths 1..3 (singletons, ordered pairs, larger prefix-sharing sets in rotated and reversed registration orders, distinct token types) and every input up to length 4 over {<,=,>,a}: the token is the longest registered prefix (or the first character), with that symbol's type, and exactly its characters are consumed; staged histories: S1 registered, inputs starting with w read, w registered, the same inputs read again at once",
+		Doc: "GenericSymbolState evaluated abstractly (Add, NextToken over a StringScanner) for symbol sets over {<,=,>} of lengths 1..3 (singletons, ordered pairs, larger prefix-sharing sets in rotated and reversed registration orders, distinct token types) and every input up to length 4 over {<,=,>,a}: the token is the longest registered prefix (or the first character), with that symbol's type, and exactly its characters are consumed; staged histories: S1 registered, inputs starting with w read, w registered, the same inputs read again at once; symbols whose only, first, inner and last character is a character at the end of a range (U+0001, U+007F, U+0080, U+00FE, U+00FF, U+0100, U+0101, U+FFFE); symbols that start with, contain and end with blanks, tabs and line breaks next to the same symbols without them",
 		Run: func(c *Ctx) []*Obligation {
 			return emitSimple(c, "SYM.model", "generic.GenericSymbolState#longest-registered-symbol", c.Pos(c.MustFunc("tokenizers/generic", "", "NewGenericSymbolState").Pos()), c.symxRun(), "tokens agree with the longest-match model")
 		}})
@@ -801,6 +963,109 @@ func (c *Ctx) mapdRun() *simpleVerdict {
 		}
 		v.runs++
 	}
+	// "a tokenizer hands every character of a configured range, Latin or not, to the configured state": with nothing
+	// but one range configured - handed to the symbol state (every character is a one-character Symbol token) and to
+	// the word state with exactly the range as its word characters (every run is one Word token) - the ends of the
+	// range, their inner neighbours and a middle character stand at the first, an inner and the last position of the
+	// input and alone, the characters next to the range too (they have no state: Unknown tokens of one character);
+	// through every way of giving the tokenizer its input
+	type dispRange struct{ lo, hi rune }
+	dispRanges := []dispRange{{'a', 'z'}, {0xE0, 0xFF}, {0xFF, 0x100}, {0x80, 0x180}, {0x100, 0x17F}, {0x2000, 0x206F},
+		{0xFE70, 0xFEFF}, {0xFEFF, 0xFEFF}, {0xFE00, 0xFFFE}, {0xFFF0, 0xFFFE}}
+	const outside = '0' // in none of the ranges
+	for _, rg := range dispRanges {
+		for _, stName := range []string{"SymbolState", "WordState"} {
+			if v.bad != "" || v.undec != "" {
+				break
+			}
+			hd := c.newTkHarness("generic")
+			hd.setOptions(0)
+			if _, out := hd.call("ClearCharacterStates"); out.kind != "ok" {
+				v.undec = "ClearCharacterStates: " + out.why
+				break
+			}
+			if why := hd.setCharState(rg.lo, rg.hi, stName); why != "" {
+				v.undec = why
+				break
+			}
+			if stName == "WordState" {
+				if why := hd.stateCall("WordState", "SetWordChars", int64(0), int64(0xFFFE), false); why != "" {
+					v.undec = why
+					break
+				}
+				if why := hd.stateCall("WordState", "SetWordChars", int64(rg.lo), int64(rg.hi), true); why != "" {
+					v.undec = why
+					break
+				}
+			}
+			config := fmt.Sprintf("generic tokenizer without options, ClearCharacterStates(), SetCharacterState(%#x,%#x,%s())", rg.lo, rg.hi, stName)
+			if stName == "WordState" {
+				config += fmt.Sprintf(" whose word characters are exactly %#x-%#x", rg.lo, rg.hi)
+			}
+			in := func(ch rune) bool { return rg.lo <= ch && ch <= rg.hi }
+			var chars []rune
+			seenCh := map[rune]bool{}
+			for _, ch := range []rune{rg.lo, rg.hi, rg.lo + 1, rg.hi - 1, (rg.lo + rg.hi) / 2, rg.lo - 1, rg.hi + 1} {
+				if ch >= 1 && ch <= 0xFFFE && !seenCh[ch] && (in(ch) || ch == rg.lo-1 || ch == rg.hi+1) {
+					seenCh[ch] = true
+					chars = append(chars, ch)
+				}
+			}
+			var inputs []string
+			for _, ch := range chars {
+				x, o := string(ch), string(rune(outside))
+				inputs = append(inputs, x, x+o, o+x, o+x+o, x+o+x, x+x, x+string(rg.hi)+o, o+string(rg.lo)+x)
+			}
+			for _, input := range inputs {
+				// the model: runs of range characters (single ones for the symbol state), one token per other character
+				var want []string
+				rs := []rune(input)
+				for i := 0; i < len(rs); {
+					switch {
+					case !in(rs[i]):
+						want = append(want, fmt.Sprintf("Unknown(%q)", string(rs[i])))
+						i++
+					case stName == "SymbolState":
+						want = append(want, fmt.Sprintf("Symbol(%q)", string(rs[i])))
+						i++
+					default:
+						j := i
+						for j < len(rs) && in(rs[j]) {
+							j++
+						}
+						want = append(want, fmt.Sprintf("Word(%q)", string(rs[i:j])))
+						i = j
+					}
+				}
+				for _, entry := range tkListEntries {
+					_, r := hd.tokenizeVia(entry, input)
+					if r.kind == "opaque" {
+						if v.undec == "" {
+							v.undec = fmt.Sprintf("%s, %s on %q: %s", config, entry, input, r.why)
+						}
+						continue
+					}
+					v.runs++
+					if v.bad != "" {
+						continue
+					}
+					if r.kind != "ok" {
+						v.bad = fmt.Sprintf("%s, %s on %q panics: %s", config, entry, input, r.why)
+						continue
+					}
+					var got []string
+					for _, t := range r.toks {
+						if t.typ != "Eof" {
+							got = append(got, fmt.Sprintf("%s(%q)", t.typ, t.val))
+						}
+					}
+					if strings.Join(got, " ") != strings.Join(want, " ") {
+						v.bad = fmt.Sprintf("%s, %s on %q yields [%s]; every character of the configured range goes to the configured state and the others to none: [%s]", config, entry, input, strings.Join(got, " "), strings.Join(want, " "))
+					}
+				}
+			}
+		}
+	}
 	// the character classes of the whitespace and word states: a disabled range is really disabled
 	h3 := c.newTkHarness("generic")
 	h3.setOptions(0)
@@ -849,7 +1114,7 @@ func (c *Ctx) mapdRun() *simpleVerdict {
 
 func init() {
 	register(&Rule{ID: "MAP.dispatchmodel", Floor: 1,
-		Doc: "the same list model through a tokenizer: ClearCharacterStates / SetCharacterState with ranges below, above and across U+0100 and states {word, symbol, none}, probed with GetCharacterState; a disabled non-Latin range yields Unknown tokens and a re-enabled one reaches its state",
+		Doc: "the same list model through a tokenizer: ClearCharacterStates / SetCharacterState with ranges below, above and across U+0100 and states {word, symbol, none}, probed with GetCharacterState; a disabled non-Latin range yields Unknown tokens and a re-enabled one reaches its state; with one range (Latin, spanning U+0100, above it, ending at U+FEFF and U+FFFE) handed to the symbol or the word state the characters at and next to its ends stand at the first, an inner and the last position of inputs given through TokenizeBuffer, TokenizeStream and SetReader",
 		Run: func(c *Ctx) []*Obligation {
 			return emitSimple(c, "MAP.dispatchmodel", "tokenizers.AbstractTokenizer#character-dispatch", c.Pos(c.MustFunc("tokenizers/generic", "", "NewGenericTokenizer").Pos()), c.mapdRun(), "dispatch agrees with the list model")
 		}})
